@@ -128,6 +128,10 @@ def run(rep, tier, rng):
         # supersets and permutations: per-trait slots must not change
         pool = G.STRUCT_TRAITS if item["kind"] == "struct" else G.ENUM_TRAITS
         extra = [t for t in rng.sample(pool, min(3, len(pool))) if t not in traits][:rng.randint(1, 3)]
+        if item["kind"] == "enum" and rng.random() < 0.2:
+            # a companion that cannot be derived for an enum: it gets an error of its own, the other impls stay
+            extra.insert(rng.randrange(len(extra) + 1), rng.choice(["Neg", "Not", "Add", "SubAssign", "Deref"]))
+            rep.count("supersets_with_a_trait_not_derivable_for_enums")
         if extra and not activates_helper(item, traits, extra) and "dump" not in shared:
             pos = rng.randrange(len(elems) + 1)
             el2 = elems[:pos] + extra + elems[pos:]
